@@ -363,9 +363,9 @@ class BaseSubscription:
                 matched.add(event.pubkey in query.authors or match is not None)
             if query.kinds is not None:
                 matched.add(event.kind in query.kinds)
-            if query.since:
+            if query.since is not None:
                 matched.add(event.created_at >= query.since)
-            if query.until:
+            if query.until is not None:
                 matched.add(event.created_at < query.until)
             if query.tags:
                 for tagname, values in query.tags:
